@@ -3,7 +3,7 @@ import core
 from vaa_common import HDR, monitor_rows
 
 def run(ctx):
-    core.run_extract(ctx, ["vaa_consts"])
+    core.run_extract(ctx, ["vaa_consts", "vaa_verify"])
     core.coq_prove(ctx, "C06")
     if ctx.tier == "thorough":
         core.coq_thorough_audit(ctx, "C06")
